@@ -37,7 +37,7 @@ def _case(draw, tier):
     if src == "mpas":
         mesh = draw(meshgen.voronoi_mesh(6, 26 if big else 14))
     else:
-        mesh = draw(meshgen.any_mesh(max_pts=34 if big else 16))
+        mesh = draw(meshgen.any_mesh(max_pts=34 if big else 16, tiny=True))
     centred = draw(st.sampled_from(["face", "face", "node"]))
     n = len(mesh["faces"]) if centred == "face" else len(mesh["nodes"])
     return {
@@ -207,8 +207,12 @@ def run_case(case, ctx):
         exp = np.zeros_like(exp_diff)
         with np.errstate(divide="ignore", invalid="ignore"):
             exp[..., interior] = exp_diff[..., interior] / centre_dist[interior]
-        if not np.allclose(got, exp, rtol=max(rtol, 1e-9), atol=1e-12 * (1.0 if case["radius"] == 1.0 or winfo is None else 1.0)):
-            i = np.argwhere(~np.isclose(got, exp, rtol=max(rtol, 1e-9), atol=1e-12))[0]
+        # distances are asserted to 1e-9 rad absolute; a gradient inherits the relative error of its distance
+        with np.errstate(divide="ignore", invalid="ignore"):
+            rel = np.where(interior, np.maximum(max(rtol, 1e-9), 2e-9 / np.where(centre_dist > 0, centre_dist, 1.0)), max(rtol, 1e-9))
+        okm = np.abs(got - exp) <= rel * np.abs(exp) + 1e-12
+        if not np.all(okm):
+            i = np.argwhere(~okm)[0]
             e = int(i[-1])
             bad("gradient_value", "wrong", f"edge {e} faces {ef[e].tolist()} (interior={bool(interior[e])}): got {got[tuple(i)]!r} expected {exp[tuple(i)]!r} = {exp_diff[tuple(i)]!r}/{centre_dist[e]!r}")
         if case["constant"] and np.any(got != 0):
